@@ -2,6 +2,8 @@ SPECIFICATION Spec
 CONSTANTS
   RepGE = TRUE
   RootGuard = FALSE
+  MaxPly = 100
+  PlyGuard = TRUE
 INVARIANT InvPrefix
 INVARIANT InvSends
 INVARIANT InvRep
